@@ -196,9 +196,27 @@ def strict_relation(item):
     return dict(status="ok", problems=probs, pairs=1, states=r.states, trans=r.trans)
 
 
+def ref_position(item):
+    """the 'first offending byte' is a statement about the PROGRAM, not about the compiled machine: decide where the parse fails (and where it
+    ends) with the reference interpreter and require the machine - and through the replays the C - to fail / finish at exactly that byte"""
+    from checks import c01
+    r = c01.check_program(dict(ast=item["ast"], label=item["label"], want_c=True, cap=1500, levels=[[], ["-O3"]], extra=item.get("extra", []), c_all_levels=True))
+    if r["status"] != "ok":
+        return dict(status=r["status"], problems=[])
+    probs = []
+    for p in r["problems"]:
+        if p["kind"] == "mismatch" and any(pred(item["ast"]) for _, pred in c01.KNOWN_SHAPES):
+            continue
+        if p["kind"] in ("mismatch", "creplay") and ("fail" in p["what"].lower() or "consum" in p["what"].lower() or "DONE" in p["what"] or "FINISH" in p["what"]):
+            probs.append(dict(kind="position", what=p["what"] + " %s" % p["argv"], calls=[("F", p["path"])]))
+    return dict(status="ok", problems=probs[:2], ref=True, histories=r["states"], calls=r["trans"], xsched=r["creplay"], xinv=0, shapes=[], src=r["src"])
+
+
 def dispatch(item):
     if item.get("strict"):
         return strict_relation(item)
+    if item.get("ref"):
+        return ref_position(item)
     return check_program(item)
 
 
@@ -222,6 +240,13 @@ def run(tier, seed):
         for v in {tuple(x) for x in vs}:
             items.append(dict(label=p["label"], src=p["src"], argv=p["argv"] + [f for f in v if f not in p["argv"]], ast=p.get("ast"), L=L))
         items.append(dict(label=p["label"], src=p["src"], argv=p["argv"], strict=True))
+    from checks import c17
+    for j, ast in enumerate(c17.eof_universe()):
+        if tier == "thorough" or j % 3 == seed % 3:
+            items.append(dict(label="EOFREF#%d" % j, src=U.source(tuple(ast)), argv=["-feof-support"], ast=tuple(ast), extra=["-feof-support"], ref=True))
+    for j, ast in enumerate(U.handwritten()):
+        if tier == "thorough" or j % 2 == seed % 2:
+            items.append(dict(label="HWREF#%d" % j, src=U.source(tuple(ast)), argv=U.needs_flags(tuple(ast)), ast=tuple(ast), ref=True))
     stats = dict(items=len(items), accepted=0, rejected=0, cbuild_failed=0, hangs_left_to_C04=0, strict_pairs=0, exhaustive_schedules=0)
     for idx, r in pmap(dispatch, items, timeout=900, chunksize=2, stop=ck.enough):
         if "harness_error" in r or "harness_timeout" in r:
@@ -249,7 +274,7 @@ def run(tier, seed):
                 ck.sample(dict(program=it["label"], argv=it["argv"], histories=r["histories"], calls=r["calls"], shapes=r["shapes"][:6]))
         for p in r.get("problems", []):
             ck.violation("C10:%s:%s" % (p["kind"], sha(it["src"] + " ".join(it["argv"]))[:10]), "%s %s: %s" % (it["label"], it["argv"], p["what"]),
-                         dict(src=it["src"], argv=it["argv"], calls=p["calls"], L=L, strict=bool(it.get("strict"))))
+                         dict(src=it["src"], argv=it["argv"], calls=p["calls"], L=L, strict=bool(it.get("strict")), ref_ast=(repr(it["ast"]) if it.get("ref") else None), extra=it.get("extra", [])))
     ck.extra.update(stats)
     ck.exhaustive = True
     ck.assumptions += ["the abstract machine (bound to the C by C06, to the procedural reading by C01) is the monitor for 'when the program finishes' and 'the offending byte'",
@@ -260,7 +285,10 @@ def run(tier, seed):
 
 def replay(path):
     d = json.load(open(path))
-    r = dispatch(dict(src=d["src"], argv=d["argv"], label="replay", L=d.get("L", 3), strict=d.get("strict", False)))
+    if d.get("ref_ast"):
+        r = dispatch(dict(src=d["src"], argv=d["argv"], label="replay", ast=eval(d["ref_ast"]), extra=d.get("extra", []), ref=True))
+    else:
+        r = dispatch(dict(src=d["src"], argv=d["argv"], label="replay", L=d.get("L", 3), strict=d.get("strict", False)))
     for p in r.get("problems", []):
         print(p["what"])
     print("REPRODUCED" if r.get("problems") else "not reproduced")
